@@ -510,6 +510,9 @@ pub struct World {
     pub has_hole: bool,
     pub case_id: String,
     pub trail: Vec<String>,
+    /// columns reparsed since the last tick (bit mask) and the number of ticks that followed edits of two or more columns
+    pub edited_mask: u32,
+    pub multi_edit_ticks: u64,
 }
 
 fn snap_pattern_string(snap: &Snapshot<Payload>, cols: usize) -> String {
@@ -559,6 +562,8 @@ impl World {
             has_hole: false,
             case_id: seed_id,
             trail: Vec::new(),
+            edited_mask: 0,
+            multi_edit_ticks: 0,
         }
     }
 
@@ -739,6 +744,7 @@ impl World {
         let changed = self.modes[col] != (case, norm);
         self.modes[col] = (case, norm);
         self.n().pattern.reparse(col, new_text, case, norm, append);
+        self.edited_mask |= 1 << col;
         if changed {
             self.note(format!("reparse col {col} {new_text:?} append={append} settings now {case:?}/{norm:?}"));
         } else {
@@ -875,6 +881,10 @@ impl World {
             }
         };
         let completed_before = self.completed.lock().unwrap().get(&self.cur).copied().unwrap_or(0);
+        if self.edited_mask.count_ones() >= 2 {
+            self.multi_edit_ticks += 1;
+        }
+        self.edited_mask = 0;
         record_event(EvKind::TickBegin);
         let st = self.n().tick(timeout);
         record_event(EvKind::TickEnd { changed: st.changed, running: st.running });
@@ -1185,6 +1195,10 @@ impl World {
             return false;
         }
         rep.count("c07.quiescent-states-compared");
+        if self.cols >= 2 {
+            rep.count("c15.multi-column-quiescent-states-compared");
+        }
+        rep.add("c15.ticks-after-edits-of-2+-columns", std::mem::take(&mut self.multi_edit_ticks));
         let (present, expected) = self.expected_quiescent();
         let snap = self.nucleo.as_ref().unwrap().snapshot();
         let got: Vec<(u32, u32)> = snap.matches().iter().map(|m| (m.score, m.idx)).collect();
@@ -1211,6 +1225,9 @@ impl World {
             } else {
                 "order-or-score-differs-at-quiescence"
             };
+            if self.cols >= 2 {
+                self.problem("C15", "multi-column-snapshot-differs-from-the-conjunction", msg.clone());
+            }
             self.problem("C07", kind, msg);
         }
         true
